@@ -303,6 +303,12 @@ class C03Progress(Base):
     def on_event(self, ev):
         k = ev['k']
         if k == 'MSG_OUT':
+            if ev.get('transient'):
+                # a message for a task that has already left the pool: the
+                # output reaches no prerequisite (the C01 known finding
+                # 'output-message-after-final-message'); not a fact here
+                self.n['facts_skipped_task_left_pool'] += 1
+                return
             p, n = split_id(ev['id'])
             for o in ev['outputs_after']:
                 self.told.add((n, p, o))
@@ -556,7 +562,9 @@ class C06Hold(Base):
     def on_event(self, ev):
         from vlib.e1.monitors import match_ids
         k = ev['k']
-        if k == 'CMD':
+        if k == 'CMD_EXEC':
+            # (when the scheduler executes the command: one queued behind a
+            # stop request is never executed)
             cmd, args = ev['cmd'], ev['args']
             pool = ev.get('pool') or []
             if cmd == 'hold':
@@ -676,6 +684,7 @@ class C08Flows(Base):
         self.done: Dict[str, Set[int]] = {
             k: set(v) for k, v in (st.get('done') or {}).items()}
         self.spawn_stack = []
+        self.added: Dict[str, Tuple[Set[int], bool]] = {}
 
     def note_flows(self, flows):
         for f in flows:
@@ -696,6 +705,11 @@ class C08Flows(Base):
             self.note_flows([ev['returned']])
         elif k in ('POOL_ADD',):
             self.note_flows(ev['task']['flows'])
+            # the flows that reached the instance when it was spawned
+            # (flows merged into the pooled instance later do not "reach it
+            # again": the statement makes it belong to the union)
+            loaded = bool(self.phase.get('restart')) and self.drv.bus.it == 0
+            self.added[ev['task']['id']] = (set(ev['task']['flows']), loaded)
         elif k == 'STATE':
             self.note_flows(ev.get('flows') or [])
         elif k == 'SPAWN_IN':
@@ -744,7 +758,17 @@ class C08Flows(Base):
                 if tid in self.drv.ledger.manual:
                     continue
                 self.n['rerun_checks'] += 1
-                again = self.done.get(tid, set()) & set(t['flows'])
+                done = self.done.get(tid, set())
+                at_add, loaded = self.added.get(tid, (set(t['flows']), True))
+                if loaded:
+                    # loaded from the DB at restart (merges before the stop
+                    # are not known): all its flows must be done to judge
+                    again = done & set(t['flows']) \
+                        if set(t['flows']) <= done else set()
+                else:
+                    again = done & at_add
+                if done & set(t['flows']) and not again:
+                    self.n['rerun_for_other_flow_with_done_flows_merged'] += 1
                 if again:
                     self.v('completed-task-rerun-in-same-flow',
                            f'{tid} enters job preparation in flow(s) '
@@ -848,6 +872,7 @@ class C25DataStore(Base):
         super().__init__(case, phase)
         self.mirror = None
         self.pending = []
+        self.foreign = {}
 
     def after_start(self, drv, schd):
         q = schd.server.publish_queue
@@ -863,6 +888,38 @@ class C25DataStore(Base):
                                    traceback.format_exc(limit=8))
             return orig_put(item, *a, **kw)
         q.put = put
+        # which deltas come from a task proxy that is not the pooled one
+        # (an instance removed while active whose job events still arrive)
+        dsm = schd.data_store_mgr
+        for name in ('delta_task_state', 'delta_task_flow_nums',
+                     'delta_task_output', 'delta_task_outputs',
+                     'delta_task_prerequisite'):
+            orig = getattr(dsm, name, None)
+            if orig is None:
+                continue
+
+            def wrapped(itask, *a, _orig=orig, **kw):
+                try:
+                    cur = schd.pool._get_task_by_id(itask.identity)
+                    if cur is not itask:
+                        mon.foreign.setdefault(itask.identity, []).append(
+                            itask)
+                        mon.n['deltas_from_proxy_not_in_pool'] += 1
+                except Exception:
+                    pass
+                return _orig(itask, *a, **kw)
+            setattr(dsm, name, wrapped)
+
+    def is_foreign(self, itask):
+        return any(o is not itask for o in self.foreign.get(
+            itask.identity, []))
+
+    def vf(self, itask, key, what, detail):
+        """A store/pool difference; classified by mechanism when deltas of
+        another proxy object with the same id were seen."""
+        if self.is_foreign(itask):
+            key = 'store-field-differs:delta-from-proxy-not-in-pool'
+        self.v(key, what, detail)
 
     def store(self, schd):
         return schd.data_store_mgr.data[schd.data_store_mgr.workflow_id]
@@ -967,11 +1024,11 @@ class C25DataStore(Base):
                               ('is_runahead', bool(st.is_runahead))):
                 got = getattr(node, fld)
                 if got != want:
-                    self.v(f'store-field-differs:{fld}',
+                    self.vf(itask, f'store-field-differs:{fld}',
                            f'{tid}: data store {fld}={got!r}, pool '
                            f'{want!r}', {'id': tid})
             if deserialise_set(node.flow_nums) != set(itask.flow_nums):
-                self.v('store-field-differs:flow_nums',
+                self.vf(itask, 'store-field-differs:flow_nums',
                        f'{tid}: data store flows {node.flow_nums}, pool '
                        f'{sorted(itask.flow_nums)}', {'id': tid})
             want_out = {trg: bool(done) for trg, _, done in st.outputs}
@@ -980,7 +1037,7 @@ class C25DataStore(Base):
             if got_out and want_out != got_out:
                 bad = sorted(k for k in want_out
                              if want_out[k] != got_out.get(k))
-                self.v('store-field-differs:outputs',
+                self.vf(itask, 'store-field-differs:outputs',
                        f'{tid}: outputs {bad} differ (store '
                        f'{ {k: got_out.get(k) for k in bad} }, pool '
                        f'{ {k: want_out[k] for k in bad} })', {'id': tid})
@@ -991,7 +1048,7 @@ class C25DataStore(Base):
                 (c.task_proxy, c.req_state, bool(c.satisfied))
                 for pr in node.prerequisites for c in pr.conditions)
             if want_pre != got_pre:
-                self.v('store-field-differs:prerequisites',
+                self.vf(itask, 'store-field-differs:prerequisites',
                        f'{tid}: prerequisite satisfaction in the store '
                        f'{got_pre[:4]} != pool {want_pre[:4]}', {'id': tid})
 
@@ -1443,13 +1500,14 @@ class C30Remove(Base):
                                {'before': kb, 'after': ka})
                     continue
                 expect = []
+                tset = set(targets)     # (one command may remove several)
                 for x in kb['prereqs']:
                     y = list(x)
-                    if (x[0], x[1]) == (str(p), n) and x[3] and \
+                    if f'{x[0]}/{x[1]}' in tset and x[3] and \
                             x[4] != 'force satisfied':
                         y[3], y[4] = False, None
                         self.n['natural_atoms_unset_expected'] += 1
-                    elif (x[0], x[1]) == (str(p), n) and \
+                    elif f'{x[0]}/{x[1]}' in tset and \
                             x[4] == 'force satisfied':
                         self.n['forced_atoms_kept_expected'] += 1
                     expect.append(y)
